@@ -57,6 +57,18 @@ claim("C05",
       "Lean 4 proof (structural induction over the greedy-fill loop) + model/implementation correspondence",
       "DESIGN.md §7 C05")
 
+claim("C10",
+      "Lean theorems: UNBOLD_* (the only two heading shapes that change and what they become; partly bold headings, all "
+      "leaf blocks and container attributes untouched; UNBOLD_IDEM_false witness) on the model of doc_cleanups; on the "
+      "render model ITEM_TIGHT / ITEM_LOOSE / ITEM_LOOSE_suppressed (exactly when an item emits its single separator "
+      "line and what it is), MODE_loose / MODE_preserve / MODE_tight, ITEMS_SEE_LIST_TIGHTNESS (via FRAME), "
+      "CAN_BE_TIGHT_items. Ties: transform model (cleanups on Marko trees) and render model in all three modes. Oracle: "
+      "cleanups on vs off (AST equal up to unbolding all-bold headings, only heading lines differ), loose/tight vs "
+      "preserve (identical after deleting blank lines, same structure up to tightness, LOOSE_ALL, TIGHT_WHEN_POSSIBLE).",
+      COMMON_NOTE + "SPACING_ONLY as a single theorem over whole documents (output equality after erasing separator lines) is "
+      "checked end-to-end, not proved; the item-level lemmas are.",
+      "Lean 4 proof (item/mode lemmas on the renderer model, unbold characterisation) + correspondence + differential oracle",
+      "DESIGN.md §7 C10")
 claim("C11",
       "Lean theorems for all sentence lists/widths/indents about an exact fold model of line_wrap_by_sentence: FRAME "
       "(a step rewrites only the last line), LOCAL_PREFIX, LOCAL_SUFFIX, END_BREAKS, BREAK_CAUSE (each sentence "
